@@ -860,6 +860,94 @@ Proof.
 Qed.
 
 (* ================================================================== *)
+(* G2. How the hint is written: subscript, annotation (evaluated,       *)
+(*     postponed / quoted, forward reference), ClassVar / tunable       *)
+(*     wrappers                                                         *)
+(* ================================================================== *)
+
+(* the documented reading of an annotation: the H inside *)
+Definition written_hint (a : annexpr) : tyexpr :=
+  match a with
+  | APlain (IType h) | APlain (ITunable h)
+  | AClassVar (IType h) | AClassVar (ITunable h) => h
+  end.
+
+(* what __set_name__ resolves, for every class-body form: the subscript if
+   there is one, else the H inside the (evaluated) annotation, else nothing *)
+Theorem set_name_hint_char : forall o r,
+  set_name_hint (mksrc o r) =
+  match o with
+  | Some h => Some h
+  | None => option_map (fun x => written_hint (get_type_hints x)) r
+  end.
+Proof.
+  intros [h|] [r|]; try reflexivity.
+  unfold set_name_hint; simpl. now destruct (get_type_hints r) as [[h|h]|[h|h]].
+Qed.
+
+(* every accepted spelling of the hint H resolves to H *)
+Theorem spelled_hint : forall sp h, set_name_hint (spell sp h) = Some h.
+Proof. intros [|[] [] []] h; reflexivity. Qed.
+
+Lemma unspelled_hint : forall sp, set_name_hint (spell_opt sp None) = None.
+Proof. reflexivity. Qed.
+
+Lemma spell_opt_hint : forall sp h, set_name_hint (spell_opt sp h) = h.
+Proof. intros sp [h|]; [apply spelled_hint | reflexivity]. Qed.
+
+Lemma all_spellings_complete : forall sp, In sp all_spellings.
+Proof. intros [|[] [] []]; simpl; tauto. Qed.
+
+(* a postponed (PEP 563) or quoted annotation, and one with a quoted
+   argument, give the class statement the same outcome as the evaluated one *)
+Theorem postponed_annotation_same : forall d o a,
+  decl_topic_src d (mksrc o (Some (RStr a))) = decl_topic_src d (mksrc o (Some (RObj a))) /\
+  decl_topic_src d (mksrc o (Some (RFwd a))) = decl_topic_src d (mksrc o (Some (RObj a))).
+Proof. intros d [h|] a; split; reflexivity. Qed.
+
+(* the class statement, from the way it is written: the documented table,
+   for every default, every hint (or none) and every spelling *)
+Theorem decl_topic_src_spec : forall d sp h,
+  res_to_option (decl_topic_src d (spell_opt sp h)) = spec_decl d h.
+Proof.
+  intros d sp h. unfold decl_topic_src. rewrite spell_opt_hint. apply decl_topic_spec.
+Qed.
+
+Lemma res_to_option_some : forall (A : Type) (r : res A) a, res_to_option r = Some a -> r = Ok a.
+Proof. intros A [x| |] a H; simpl in H; try discriminate. now injection H as ->. Qed.
+
+(* type-hinted empty sequences: list[T], Sequence[T], tuple[T, ...] in any
+   spelling give the array topic of T *)
+Theorem hinted_empty_sequence : forall sp b t, spec_array b = Some t ->
+  decl_topic_src (VList []) (spell sp (TGen OList [ABase b])) = Ok t /\
+  decl_topic_src (VList []) (spell sp (TGen OSeq [ABase b])) = Ok t /\
+  decl_topic_src (VTuple []) (spell sp (TGen OSeq [ABase b])) = Ok t /\
+  decl_topic_src (VTuple []) (spell sp (TGen OTuple [ABase b; AEllipsis])) = Ok t.
+Proof.
+  intros sp b t H.
+  repeat split; apply res_to_option_some;
+    match goal with |- res_to_option (decl_topic_src ?d (spell sp ?h)) = _ =>
+      change (res_to_option (decl_topic_src d (spell_opt sp (Some h))) = Some t) end;
+    rewrite decl_topic_src_spec; exact H.
+Qed.
+
+(* a tunable whose hint H is written in any spelling is bound by a successful
+   Setup at the documented key with the documented type of (default, H) *)
+Theorem setup_binds_spelled : forall w i cls p c d sp h,
+  NoDup (map d_attr cls) -> In d cls -> public d = true ->
+  d_hint d = set_name_hint (spell_opt sp h) ->
+  snd (step w (Setup i cls p c)) = EvSetup true ->
+  exists b ty, inst_get (w_inst (fst (step w (Setup i cls p c)))) i = Some b /\
+    spec_decl (d_default d) h = Some ty /\
+    bind_get b (d_attr d) = Some (key_of p c (d_subtable d) (d_attr d), ty, canon (d_default d)).
+Proof.
+  intros w i cls p c d sp h Hnd Hin Hpub Hh Hs.
+  destruct (setup_binds w i cls p c d Hnd Hin Hpub Hs) as (b & ty & Hb & Ht & Hg).
+  exists b, ty. split; [exact Hb|]. split; [|exact Hg].
+  rewrite Hh, spell_opt_hint in Ht. rewrite <- decl_topic_spec, Ht. reflexivity.
+Qed.
+
+(* ================================================================== *)
 (* H. @feedback key and topic type (reused by C11)                     *)
 (* ================================================================== *)
 
